@@ -216,27 +216,40 @@ def do_call(drv, c):
 
 
 def upload_view(drv):
-    """Projection of tags / data_types / info after an upload (C05)."""
-    tags = {}
-    for name, t in drv.tags.items():
-        tags[name] = {k: t.get(k) for k in ("tag_name", "dim", "dimensions", "alias", "instance_id", "external_access",
-                                             "data_type_name", "tag_type", "template_instance_id")}
-    dts = {}
-    for name, d in drv.data_types.items():
-        internal = {}
+    """Projection of tags / data_types / info after an upload (C05), in a form TraceSession can compare."""
+    from .values import int_term
+
+    def c(x):
+        return [ord(ch) for ch in x] if isinstance(x, str) else [63]
+
+    def n(x, d=-1):
+        return x if isinstance(x, int) and not isinstance(x, bool) and abs(x) < 2 ** 31 else d
+    tags = []
+    for name in sorted(drv.tags):
+        t = drv.tags[name]
+        dims = list(t.get("dimensions") or [0, 0, 0])
+        tags.append({"name": c(name), "dim": n(t.get("dim")), "dims": [n(x) for x in (dims + [0, 0, 0])[:3]],
+                     "alias": 1 if t.get("alias") else 0, "iid": int_term(t.get("instance_id"))["i"] if isinstance(t.get("instance_id"), int) else [0, 0],
+                     "access": c(t.get("external_access")), "dtname": c(t.get("data_type_name")), "ttype": str(t.get("tag_type")),
+                     "tid": n(t.get("template_instance_id"))})
+    dts = []
+    for name in sorted(drv.data_types):
+        d = drv.data_types[name]
+        internal = []
         for mn, mi in d["internal_tags"].items():
-            internal[mn] = {"offset": mi.get("offset"), "tag_type": mi.get("tag_type"), "data_type_name": mi.get("data_type_name"),
-                            "bit": mi.get("bit"), "array": mi.get("array")}
-        dts[name] = {"attributes": list(d["attributes"]), "internal": internal, "string": d.get("string"),
-                     "template": {k: d["template"].get(k) for k in ("structure_size", "member_count", "structure_handle", "object_definition_size")}}
+            internal.append({"name": c(mn), "off": n(mi.get("offset")), "ttype": str(mi.get("tag_type")), "dtname": c(mi.get("data_type_name")),
+                             "bit": n(mi.get("bit")), "arr": n(mi.get("array"), 0) if mi.get("array") is not None else 0})
+        tp = d.get("template", {})
+        dts.append({"name": c(name), "attrs": [c(a) for a in d["attributes"]], "internal": internal, "string": n(d.get("string"), -1) if d.get("string") is not None else -1,
+                    "size": n(tp.get("structure_size")), "count": n(tp.get("member_count")), "handle": n(tp.get("structure_handle")), "defsize": n(tp.get("object_definition_size"))})
     info = drv.info
+    progs = [{"name": c(k), "routines": [c(r) for r in (v.get("routines") or [])]} for k, v in sorted(info.get("programs", {}).items())]
     try:
         json.dumps(drv.tags_json)
         js = 1
     except Exception:
         js = 0
-    return {"tags": tags, "data_types": dts, "programs": {k: {"routines": v.get("routines")} for k, v in info.get("programs", {}).items()},
-            "tasks": sorted(info.get("tasks", {})), "json": js}
+    return {"tags": tags, "dts": dts, "programs": progs, "tasks": [c(x) for x in sorted(info.get("tasks", {}))], "json": js}
 
 
 def run_scenario(sc):
